@@ -14,6 +14,12 @@ import (
 // free (both edges are taken). Used to decide "this block is reached only when atom A holds and
 // atom B does not" without reading source text.
 type condAtoms struct {
+	// assumed concrete facts (for infeasibility proofs): the length of one sequence and the value of
+	// string subjects named by their structural path
+	lenSeq  func(ssa.Value) bool // is this value the sequence whose length is assumed?
+	lenVal  int64
+	hasLen  bool
+	strVals map[string]string // pathName of a string value → assumed value ("\x00other" = none of the constants)
 	pred    *ssa.Function     // calls of this function are atom "P"
 	strEq   map[string]string // constant string → atom name: (x == const) is that atom
 	assign  map[string]bool   // atom → value
@@ -110,8 +116,39 @@ func (r *condRun) eval(v ssa.Value, d int) tri {
 			return r.eval(x.X, d+1).not()
 		}
 	case *ssa.BinOp:
+		// a comparison of the assumed length with a constant
+		if r.a.hasLen {
+			if lx, c, ok := lenMinus(x.X); ok && r.a.lenSeq(lx) {
+				if k, isC := constIntVal(x.Y); isC {
+					l := r.a.lenVal - c
+					switch x.Op {
+					case token.EQL:
+						return triOf(l == k)
+					case token.NEQ:
+						return triOf(l != k)
+					case token.LSS:
+						return triOf(l < k)
+					case token.LEQ:
+						return triOf(l <= k)
+					case token.GTR:
+						return triOf(l > k)
+					case token.GEQ:
+						return triOf(l >= k)
+					}
+				}
+			}
+		}
 		if x.Op == token.EQL || x.Op == token.NEQ {
 			for _, pr := range [][2]ssa.Value{{x.X, x.Y}, {x.Y, x.X}} {
+				if cn, ok := pr[1].(*ssa.Const); ok && cn.Value != nil && cn.Value.Kind() == constant.String && r.a.strVals != nil {
+					if av, has := r.a.strVals[pathName(pr[0])]; has {
+						t := triOf(av == constant.StringVal(cn.Value))
+						if x.Op == token.NEQ {
+							t = t.not()
+						}
+						return t
+					}
+				}
 				if cn, ok := pr[1].(*ssa.Const); ok && cn.Value != nil && cn.Value.Kind() == constant.String {
 					if atom, ok := r.a.strEq[constant.StringVal(cn.Value)]; ok {
 						if val, has := r.a.assign[atom]; has {
